@@ -100,7 +100,8 @@ let () =
             let k = hex_of_bytes fmt ^ "@" ^ string_of_int (int_of_n ts) in
             try Hashtbl.find tbl k with Not_found -> bytes_of_hex "3f3f" in
           let ops = List.concat_map parse_op (String.split_on_char ';' ops) in
-          let (outs, w) = run strftime_ world_init ops in
+          let pinned = (try Sys.getenv "C16_MODEL" = "pinned" with Not_found -> false) in
+          let (outs, w) = (if pinned then run_pinned else run) strftime_ world_init ops in
           let prop = List.map (function
               | Ok s -> hex_of_bytes s
               | Err _ -> "E:exception"
